@@ -510,3 +510,109 @@ Qed.
 Lemma fine_reachable_inv sg r0 st0 tr f :
   frun sg (finit r0 st0) tr = Some f -> InvF f /\ InvP f.
 Proof. intro H. exact (frun_invP sg tr _ _ (invF_init r0 st0) (invP_init r0 st0) H). Qed.
+
+(* ---------- bounded completion at channel granularity ---------- *)
+(* weight of a caller's state; N bounds the size of a batch (the number of callers around) *)
+Definition fweight (N : nat) (p : fpc) : nat :=
+  match p with
+  | FIdle | FDone _ => 0
+  | FRet _ => 1
+  | FSwap _ => 2
+  | FNotify _ k => 3 + k
+  | FNeedDel _ _ => N + 3
+  | FNeedPut _ _ => N + 4
+  | FPrepared _ => N + 5
+  | FPrep => N + 6
+  | FWait _ => N + 7
+  | FGot _ => N + 8
+  end%nat.
+
+Definition fmu (N : nat) (L : list tid) (f : tid -> fpc) : nat := list_sum (map (fun t => fweight N (f t)) L).
+
+Lemma fmu_le N L f g : (forall x, fweight N (g x) <= fweight N (f x))%nat -> (fmu N L g <= fmu N L f)%nat.
+Proof. intro H. unfold fmu. induction L as [|h l IH]; simpl; [lia|]. specialize (H h). lia. Qed.
+
+Lemma fmu_lt N L f g t :
+  (forall x, fweight N (g x) <= fweight N (f x))%nat -> In t L -> (fweight N (g t) < fweight N (f t))%nat ->
+  (fmu N L g < fmu N L f)%nat.
+Proof.
+  intros H Hin Hlt. unfold fmu. induction L as [|h l IH]; simpl; [destruct Hin|].
+  destruct Hin as [->|Hin].
+  - pose proof (fmu_le N l f g H) as Hle. unfold fmu in Hle. lia.
+  - specialize (IH Hin). specialize (H h). lia.
+Qed.
+
+Lemma fmu_upd N L f t p :
+  In t L -> (fweight N p < fweight N (f t))%nat -> (fmu N L (upd f t p) < fmu N L f)%nat.
+Proof.
+  intros Hin Hlt. apply (fmu_lt N L f (upd f t p) t); auto.
+  - intro x. destruct (Nat.eq_dec x t) as [->|Hne]; [rewrite upd_eq; lia|rewrite upd_neq; auto].
+  - now rewrite upd_eq.
+Qed.
+
+Lemma fholding_upd_keep (f : tid -> fpc) t p (L : list tid) :
+  In t L -> (forall x, fholding (f x) = true -> In x L) ->
+  forall x, fholding (upd f t p x) = true -> In x L.
+Proof.
+  intros Hin H x Hx. destruct (Nat.eq_dec x t) as [->|Hne]; auto. rewrite upd_neq in Hx; auto.
+Qed.
+
+Lemma batch_le f t L :
+  InvF f -> fpre (f_pcs f t) = true -> (forall x, fholding (f_pcs f x) = true -> In x L) ->
+  (length (f_items f) <= length L)%nat.
+Proof.
+  intros I Ht HL. replace (length (f_items f)) with (length (fbatch f)) by (unfold fbatch; apply map_length).
+  apply NoDup_incl_length; [apply (f_it_nd f I)|]. intros x Hx. apply HL.
+  destruct (Nat.eq_dec x t) as [->|Hne]; [apply fmain_holding; now apply fpre_main|].
+  rewrite (pre_others_wait f t x I Ht Hx Hne). reflexivity.
+Qed.
+
+Lemma fstep_decreases sg f e f' L :
+  InvF f -> fstep sg f e = Some f' -> fis_env e = false ->
+  (forall t, fholding (f_pcs f t) = true -> In t L) ->
+  (fmu (length L) L (f_pcs f') < fmu (length L) L (f_pcs f))%nat /\
+  (forall t, fholding (f_pcs f' t) = true -> In t L).
+Proof.
+  intros I H Hg HL. destruct e; try discriminate; simpl in H.
+  all: destruct (f_pcs f t) as [|c0|g| |old|nw o|oi ap|r k|r|r|r] eqn:Hpc; try discriminate.
+  all: assert (Hin : In t L) by (apply HL; rewrite Hpc; reflexivity).
+  all: assert (Hpos : (1 <= length L)%nat) by (destruct L; [destruct Hin|simpl; lia]).
+  all: try (assert (Hn : (length (f_items f) <= length L)%nat) by (apply (batch_le f t); auto; rewrite Hpc; reflexivity)).
+  all: unfold fnotify, fafter_put, fset_pc, fset_reg in H.
+  all: repeat match type of H with
+         | match ?x with _ => _ end = Some _ => destruct x eqn:?; try discriminate
+         | (if ?x then _ else _) = Some _ => destruct x eqn:?; try discriminate
+         end.
+  all: try (injection H as <-).
+  all: unfold fnotify, fset_pc, fset_reg.
+  all: try (destruct sg); try (destruct o); simpl.
+  all: try solve [split; [apply fmu_upd; auto; rewrite Hpc; simpl; lia | now apply fholding_upd_keep]].
+Qed.
+
+Lemma fine_bounded_run sg L tr : forall f f',
+  InvF f -> (forall t, fholding (f_pcs f t) = true -> In t L) ->
+  forallb (fun e => negb (fis_env e)) tr = true -> frun sg f tr = Some f' ->
+  (length tr + fmu (length L) L (f_pcs f') <= fmu (length L) L (f_pcs f))%nat.
+Proof.
+  induction tr as [|e tr IH]; intros f f' I HL F H; simpl in *.
+  - injection H as <-. lia.
+  - destruct (fstep sg f e) as [f1|] eqn:E; [|discriminate].
+    apply andb_true_iff in F as [F1 F2]. apply negb_true_iff in F1.
+    destruct (fstep_decreases sg f e f1 L I E F1 HL) as [Hlt HL1].
+    assert (I1 : InvF f1) by (eapply stepF; eauto).
+    specialize (IH f1 f' I1 HL1 F2 H). lia.
+Qed.
+
+(* from every reachable state of the channel-level system: without new calls, the number of
+   steps (lock regions, channel operations, exchanges) that can still happen is bounded *)
+Lemma fine_bounded_completion sg r0 st0 tr f :
+  frun sg (finit r0 st0) tr = Some f ->
+  exists bound, forall tr' f',
+    forallb (fun e => negb (fis_env e)) tr' = true -> frun sg f tr' = Some f' ->
+    (length tr' <= bound)%nat.
+Proof.
+  intro H. assert (I : InvF f) by (eapply frun_inv; eauto using invF_init).
+  destruct (f_pl f I) as (hs & _ & Hin & _).
+  exists (fmu (length hs) hs (f_pcs f)). intros tr' f' F R.
+  pose proof (fine_bounded_run sg hs tr' f f' I (fun t Ht => proj2 (Hin t) Ht) F R). lia.
+Qed.
